@@ -437,6 +437,13 @@ static void rule_table(vh::Reader& r, std::vector<double>& xs, std::vector<doubl
 	long long Y = p1;
 	for(long i = 0; i < N; i++)
 	{
+		if(yk == 6 || yk == 7)	 // random ordinates p1 .. p1+15 scaled by 2^E before (6) / from (7) the knot q; p2 = q + N*E
+		{
+			long long q = p2 % N, E = p2 / N;
+			bool tall	= ((i < q) == (yk == 6));
+			ys.push_back(std::ldexp(double(p1 + next() % 16), tall ? (int) E : 0) * uy);
+			continue;
+		}
 		long long v;
 		if(yk == 0) v = p1;
 		else if(yk == 1) v = p1 + p2 * i;
@@ -448,7 +455,9 @@ static void rule_table(vh::Reader& r, std::vector<double>& xs, std::vector<doubl
 			v = Y;
 		}
 		else if(yk == 4) v = p1 + p2 * ((i % 16 < 8) ? (i % 16) : 16 - (i % 16));
-		else v = p1 + ((i == p2) ? 1000 : 0);
+		else if(yk == 5) v = p1 + ((i == p2) ? 1000 : 0);
+		else if(yk == 8) v = p1 + ((i % 2 == 0) ? p2 : -p2) * i;
+		else v = p1 + ((i % 2 == 0) ? p2 : -p2) * (N - i);
 		ys.push_back(double(v) * uy);
 	}
 }
